@@ -133,7 +133,11 @@ public:
   }
 
   bool operator==(const discrete_domain_t &other) const {
-    return (m_is_top && other.m_is_top) || (m_set == other.m_set);
+    if (m_is_top || other.m_is_top) {
+      // m_set is empty if m_is_top
+      return m_is_top && other.m_is_top;
+    }
+    return m_set == other.m_set;
   }
 
   void operator|=(const discrete_domain_t &other) { *this = *this | other; }
